@@ -127,9 +127,11 @@ class Shim:
         self.hostlog = []
 
     def set(self, fail_from=None, before_op=None, before_script=None,
-            leak_at=None, leak_mode=None, leak_text=None):
+            leak_at=None, leak_mode=None, leak_text=None, trace_refs=False):
         self.fail_from = fail_from
         lines = []
+        if trace_refs:
+            lines.append('TRACE_REFS=1')
         if fail_from is not None:
             lines.append('FAIL_FROM=%d' % fail_from)
         if before_op is not None:
@@ -158,6 +160,26 @@ class Shim:
             fh.write('%d\n' % op)
         self.hostlog.append((op, kind, what))
         return op
+
+    def push_changes(self, op):
+        """refs changed by push number `op` of a traced run:
+        {refname: (old, new)}"""
+        def load(suffix):
+            out = {}
+            try:
+                with open(os.path.join(self.dir, 'refs.%d.%s'
+                                       % (op, suffix))) as fh:
+                    for line in fh:
+                        name, sha = line.split()
+                        out[name] = sha
+            except OSError:
+                return None
+            return out
+        b, a = load('before'), load('after')
+        if b is None or a is None:
+            return None
+        return {n: (b.get(n), a.get(n)) for n in set(a) | set(b)
+                if a.get(n) != b.get(n)}
 
     def ncommands(self):
         return self._read('n')
@@ -259,6 +281,8 @@ class World:
         self.host_repo = self.clients[LEAD].create_repository(
             slug=SLUG, owner=OWNER)
         self.bare = self.host_repo.git_url
+        os.environ['VF_BARE'] = self.bare
+        self._install_update_hook()
         self.repos = {u: self.clients[u].get_repository(slug=SLUG,
                                                         owner=OWNER)
                       for u in USERS}
@@ -276,6 +300,32 @@ class World:
         except Exception:
             pass
         env.rmscratch(self.dir)
+
+    def _install_update_hook(self):
+        """server-side failpoint: refuse the refs listed in hooks/reject
+        (real git behaviour decides what happens to the rest of the push)"""
+        hook = os.path.join(self.bare, 'hooks', 'update')
+        os.makedirs(os.path.dirname(hook), exist_ok=True)
+        with open(hook, 'w') as f:
+            f.write('#!/bin/sh\n'
+                    'if [ -f hooks/reject ]; then\n'
+                    '  while read r; do\n'
+                    '    if [ "$r" = "$1" ]; then\n'
+                    '      echo "$1" >> hooks/rejected.log\n'
+                    '      echo "remote: update of $1 refused (injected)" >&2\n'
+                    '      exit 1\n'
+                    '    fi\n'
+                    '  done < hooks/reject\n'
+                    'fi\nexit 0\n')
+        os.chmod(hook, 0o755)
+
+    def reject_refs(self, refs):
+        path = os.path.join(self.bare, 'hooks', 'reject')
+        if refs:
+            with open(path, 'w') as f:
+                f.write('\n'.join(refs) + '\n')
+        elif os.path.exists(path):
+            os.remove(path)
 
     def tick(self, n=1):
         self.clock += n
